@@ -1,4 +1,4 @@
-(* C03_merge_fuel_cex.v — the fuel constant [merge_fuel] of theories/Merge.v is too small.
+(* C03_merge_fuel_cex.v — why the FIRST fuel constant of theories/Merge.v (4*(nf+2)*(4+3*ng)+16) was too small.
    [mrun] uses its fuel as a bound on the nesting depth of calls.  The document
 
      fragment A on T { t{t{t{t{t{t{t{t{t{t{t{t{t{ ...A }}}}}}}}}}}}}      (13 nested fields)
@@ -10,9 +10,9 @@
    13*12 = 156 distinct pairs of fields before the memo [ms_being] cuts the search, at 3 to 5
    nested calls per pair: the depth needed is 776.  The real code has no fuel and terminates.
 
-   PART 1 does not depend on the constant of the model (explicit fuel), PART 2 does: it records
-   what the model as written answers, and will (and must) stop compiling once [merge_fuel] is
-   corrected (see C03_merge_fuel_proofs.v, [merge_fuel']). *)
+   The lemmas below use explicit fuel, so they are independent of the constant; the constant of
+   theories/Merge.v has since been corrected to dominate [merge_fuel'] (C03_merge_fuel_proofs.v),
+   the former value is kept here as [cex_old_constant]. *)
 From GT Require Import Visitor Validate Merge.
 From GTS Require Import SpecLin WfSchema SpecRules PoolSchemas.
 From GTP Require Import C03_merge_fuel_proofs.
@@ -60,28 +60,9 @@ Module Cex.
   Lemma cex_new_constant : merge_fuel' cex_doc = 7507.
   Proof. vm_compute. reflexivity. Qed.
 
-  (* ---------------------------------------------------------------- PART 2: the model as written *)
-  Lemma cex_merge_fuel : merge_fuel cex_doc = 772.
-  Proof. vm_compute. reflexivity. Qed.
-  Lemma cex_oof : r_oof (snd (run_rule R_OverlappingFieldsCanBeMerged sch cex_doc ctx0)) = true.
-  Proof. vm_compute. reflexivity. Qed.
-  Lemma cex_validate : validate sch cex_doc [R_OverlappingFieldsCanBeMerged] = OutOfFuel.
-  Proof. vm_compute. reflexivity. Qed.
-  Lemma cex_validate_default : validate sch cex_doc default_plan = OutOfFuel.
+  (* with the corrected constant the model answers on this document *)
+  Lemma cex_now_ok : r_oof (snd (run_rule R_OverlappingFieldsCanBeMerged sch cex_doc ctx0)) = false.
   Proof. vm_compute. reflexivity. Qed.
 End Cex.
 
-(* `forall s d c, r_oof (snd (run_rule R_OverlappingFieldsCanBeMerged s d c)) = false` and
-   `forall s d plan, wf_schema s = true -> exists es, validate s d plan = Ok es` are FALSE for the
-   fuel of the model: *)
-Lemma merge_fuel_insufficient :
-  exists s d, wf_schema s = true /\ NoDup (map node_pos (doc_selections d)) /\
-              r_oof (snd (run_rule R_OverlappingFieldsCanBeMerged s d ctx0)) = true /\
-              validate s d default_plan = OutOfFuel.
-Proof.
-  exists Cex.sch, Cex.cex_doc. split; [exact Cex.cex_schema_wf|]. split; [exact Cex.cex_positions_unique|].
-  split; [exact Cex.cex_oof|exact Cex.cex_validate_default].
-Qed.
-
-Print Assumptions merge_fuel_insufficient.
 Print Assumptions Cex.cex_depth.
